@@ -145,6 +145,24 @@ def sibling_groups(d, tier="quick"):
             if len(base) >= 3:
                 out.append(dict(base))
                 out.append(dict(reversed(base)))
+    if d >= 6:
+        # a `false` subschema next to an ordinary failing one, at the same depth (keyword-less errors in company)
+        for s2 in ({"type": "string"}, {"minimum": 1}, {}):
+            for k in ("allOf", "anyOf", "oneOf"):
+                out.append({k: [False, s2]})
+                out.append({k: [s2, False]})
+            out.append({"items": [False, s2]})
+            out.append({"items": [s2, False]})
+            out.append({"properties": {"a": False, "b": s2}})
+            out.append({"properties": {"b": s2, "a": False}})
+            out.append({"properties": {"a": False}, "patternProperties": {"^a": s2}})
+            out.append({"items": False, "contains": s2})
+            out.append({"propertyNames": False, "additionalProperties": s2})
+            out.append({"not": s2, "additionalProperties": False, "items": False})
+            out.append({"dependencies": {"a": False, "b": s2}})
+        if d == 7:
+            out.append({"if": {}, "then": False, "else": {"type": "string"}})
+            out.append({"if": False, "then": {"type": "string"}, "else": False})
     if d == 7:
         for i, t, e in itertools.product(L3, L3, L3):
             for perm in itertools.permutations([("if", i), ("then", t), ("else", e)]):
